@@ -33,7 +33,10 @@ func TestC05ClientCorruptedFrame(t *testing.T) {
 					blk.Columns[i].Rows = gen.DrawRows(rt, kinds[i], 1)
 				}
 			}
+			// the altered frame belongs to a Data or to a Totals packet (both carry compressed blocks)
+			badKind := rapid.SampledFrom([]string{"data", "data", "totals"}).Draw(rt, "altered-packet")
 			good := Item{Kind: "data", Block: blk}.Encode(N, comp.Method)
+			goodBad := Item{Kind: badKind, Block: blk}.Encode(N, comp.Method)
 			// Alter one byte of the frame (after code byte and empty table name = 2 bytes), length fields intact.
 			frameStart := 2
 			off := rapid.IntRange(0, len(good)-frameStart-1).Draw(rt, "offset")
@@ -41,7 +44,7 @@ func TestC05ClientCorruptedFrame(t *testing.T) {
 				off = (off + 9) % (len(good) - frameStart)
 			}
 			mask := byte(rapid.IntRange(1, 255).Draw(rt, "mask"))
-			bad := append([]byte(nil), good...)
+			bad := append([]byte(nil), goodBad...)
 			bad[frameStart+off] ^= mask
 			e := newEnv(serverRev)
 			defer e.conn.ForceClose()
@@ -87,7 +90,7 @@ func TestC05ClientCorruptedFrame(t *testing.T) {
 				rt.Fatalf("OnResult ran %d times, %d intact blocks preceded the corrupted one", calls, nGood)
 			}
 			st.Case(stats.Hash("c05c", string(bad), comp.Name, N), true, func() any {
-				return map[string]any{"kind": "client-corrupted-frame", "compression": comp.Name, "negotiated": N, "frame_offset": off, "mask": fmt.Sprintf("%#x", mask), "good_blocks_before": nGood}
+				return map[string]any{"kind": "client-corrupted-frame", "compression": comp.Name, "negotiated": N, "frame_offset": off, "mask": fmt.Sprintf("%#x", mask), "good_blocks_before": nGood, "altered_packet": badKind}
 			})
 		})
 	})
